@@ -7,18 +7,18 @@ From TV Require Import Base.Prelude Spec.CbcCheck Toy.ToyMac Model.C01_RecordPip
 Import ListNotations.
 Open Scope Z_scope.
 
-Lemma tm_out_length fuel : forall base h n, (Z.to_nat n < fuel)%nat -> zlen (tm_out fuel base h n) = Z.max 0 n.
+Lemma tm_out_length fuel : forall h n, (Z.to_nat n < fuel)%nat -> zlen (tm_out fuel h n) = Z.max 0 n.
 Proof.
-  induction fuel as [|f IH]; intros base h n Hf; [lia|]. cbn [tm_out].
+  induction fuel as [|f IH]; intros h n Hf; [lia|]. cbn [tm_out].
   destruct (n <=? 0) eqn:E; [rewrite zlen_nil; lia|].
   rewrite zlen_app. unfold zlen at 1. rewrite map_length, firstn_length. cbn [length].
-  destruct (Z_le_gt_dec n 7).
+  destruct (Z_le_gt_dec n 4).
   - rewrite IH by lia. lia.
   - rewrite IH by lia. lia.
 Qed.
 
 Lemma toy2_mac_length key n msg : 0 <= n -> zlen (toy2_mac key n msg) = n.
-Proof. intros H. unfold toy2_mac. cbv zeta. rewrite tm_out_length by lia. lia. Qed.
+Proof. intros H. unfold toy2_mac. rewrite tm_out_length by lia. lia. Qed.
 
 Lemma ts_run_involutive x : forall h,
   snd (ts_run h (snd (ts_run h x))) = x /\ fst (ts_run h (snd (ts_run h x))) = fst (ts_run h x) /\
